@@ -66,7 +66,10 @@ def main(argv=None):
     if a.shard:
         s, n = (int(x) for x in a.shard.split("/"))
         ctx = core.Ctx(prop, a.tier, a.seed, s, n)
-        mod.workload(ctx)
+        try:
+            mod.workload(ctx)
+        except core.StopWorkload:
+            ctx.note("workload stopped early after repeated case time-outs")
         with open(a.out, "w") as f:
             json.dump(ctx.dump(), f, default=str)
         return 0
@@ -79,7 +82,10 @@ def main(argv=None):
         parts, problems = [], []
         for s in range(nshards):
             ctx = core.Ctx(prop, a.tier, a.seed, s, nshards)
-            mod.workload(ctx)
+            try:
+                mod.workload(ctx)
+            except core.StopWorkload:
+                pass
             parts.append(json.loads(json.dumps(ctx.dump(), default=str)))
     else:
         parts, problems = core.run_shards(prop, a.tier, a.seed, nshards, timeout)
